@@ -115,8 +115,8 @@ def run(ctx):
     # units along declaration histories: == and hash of every pair after every step (incl. equal-scale units and
     # units of a type without reference unit that are worth the same)
     from checks import unitscheck
-    unitscheck.run_menu(ctx, 'uniteq', ['tA', 'tM', 'tMpA', 'p', 'ka', 'ha', 'xa5', 'ppa', 'ppka', 'ppa10'],
-                        6 if ctx.tier == 'quick' else 8)
+    unitscheck.run_menu(ctx, 'uniteq', ['tA', 'tM', 'tMpA', 'p', 'ka', 'ha', 'xa5', 'ppa', 'ppa1'] +
+                        ([] if ctx.tier == 'quick' else ['ppka', 'ppa10']), 6 if ctx.tier == 'quick' else 8)
     # terms: equal <=> same denotation, equal => same hash (Terms.tla)
     from checks import c07, moneycheck
     c07.judge(ctx, c07.eq_cases(ctx), 'terms-eq')
